@@ -33,9 +33,16 @@ let full_verdict limit bytes =
 
 let rec take n l = if n = 0 then [] else match l with [] -> [] | x :: r -> x :: take (n - 1) r
 (* the first value of the input: only the consumed prefix has to be valid UTF-8 *)
+(* "0" directly followed by a digit at the start: the scanners disagree on whether this is the value 0
+   followed by garbage or a malformed token; for first-value entry points both answers are accepted *)
+let leading_zero_digit bytes =
+  let l = Ref.ws bytes in
+  let l = match l with c :: r when int_of_n c = 45 -> r | _ -> l in
+  match l with c :: d :: _ when int_of_n c = 48 && Ref.digit d -> true | _ -> false
+
 let first_verdict strict limit bytes =
   match Ref.ref_first strict bytes with
-  | None -> "0"
+  | None -> if leading_zero_digit bytes then "0||1" else "0"
   | Some ((v, _), b) ->
     if Ref.utf8_valid (take (int_of_nat b) bytes) && (not strict || all_finite v) && int_of_nat (Ref.depth v) <= limit then "1" else "0"
 
